@@ -14,7 +14,7 @@ def make_cases(chk):
     quick = chk.tier == "quick"
     cases = []
     shapes = [s for s in gen.shapes_upto(3, 2)] + [gen.full_shape(2), gen.full_shape(3)]
-    for i in range(300 if quick else 5000):
+    for i in range(300 if quick else 30000):
         if i < len(shapes) * (1 if quick else 3):
             sh = shapes[i % len(shapes)]
         else:
